@@ -54,6 +54,9 @@ func Inlinable(f *ssa.Function) bool {
 
 var inlinableSet map[*ssa.Function]bool
 
+// closureMC: for a closure interpreted inline, the instruction creating it (its bindings give the captured variables).
+var closureMC map[*ssa.Function]*ssa.MakeClosure
+
 func computeInlinable(p *Prog) {
 	inlinableSet = map[*ssa.Function]bool{}
 	cand := map[*ssa.Function]bool{}
@@ -104,6 +107,115 @@ func computeInlinable(p *Prog) {
 			inlinableSet[f] = true
 		}
 	}
+	// local closures that are only ever called directly (never deferred, started as goroutine, passed or stored)
+	closureMC = map[*ssa.Function]*ssa.MakeClosure{}
+	for _, f := range p.RepoFns {
+		for _, b := range f.Blocks {
+			for _, in := range b.Instrs {
+				mc, ok := in.(*ssa.MakeClosure)
+				if !ok {
+					continue
+				}
+				g, _ := mc.Fn.(*ssa.Function)
+				if g == nil || len(g.Blocks) == 0 {
+					continue
+				}
+				direct := true
+				n := 0
+				if refs := mc.Referrers(); refs != nil {
+					for _, r := range *refs {
+						if _, dbg := r.(*ssa.DebugRef); dbg {
+							continue
+						}
+						c, isCall := r.(*ssa.Call)
+						if !isCall || c.Call.Value != ssa.Value(mc) {
+							direct = false
+							break
+						}
+						for _, a := range c.Call.Args {
+							if a == ssa.Value(mc) {
+								direct = false
+							}
+						}
+						n++
+					}
+				}
+				if direct && n > 0 {
+					if _, dup := closureMC[g]; dup {
+						delete(inlinableSet, g)
+						continue
+					}
+					closureMC[g] = mc
+					inlinableSet[g] = true
+				}
+			}
+		}
+	}
+	// function literals without captured variables are plain function values: same rule, all uses are direct calls
+	for _, g := range p.RepoFns {
+		if g.Parent() == nil || len(g.FreeVars) != 0 || len(g.Blocks) == 0 {
+			continue
+		}
+		direct, n := true, 0
+		for _, f := range p.RepoFns {
+			for _, b := range f.Blocks {
+				for _, in := range b.Instrs {
+					for _, op := range in.Operands(nil) {
+						if op == nil || *op != ssa.Value(g) {
+							continue
+						}
+						if c, ok := in.(*ssa.Call); ok && op == &c.Call.Value {
+							n++
+						} else {
+							direct = false
+						}
+					}
+				}
+			}
+		}
+		if direct && n > 0 {
+			inlinableSet[g] = true
+		}
+	}
+	// chains of helpers deeper than the interpretation bound, and recursive helpers, keep their identity instead
+	// (they are then analysed as functions of their own, never skipped)
+	for changed := true; changed; {
+		changed = false
+		height := map[*ssa.Function]int{}
+		onStack := map[*ssa.Function]bool{}
+		var h func(f *ssa.Function) int
+		h = func(f *ssa.Function) int {
+			if v, ok := height[f]; ok {
+				return v
+			}
+			if onStack[f] {
+				return maxInlineDepth + 100
+			}
+			onStack[f] = true
+			m := 0
+			for _, b := range f.Blocks {
+				for _, in := range b.Instrs {
+					if c, ok := in.(*ssa.Call); ok {
+						if g := c.Common().StaticCallee(); g != nil && inlinableSet[g] {
+							if v := h(g); v > m {
+								m = v
+							}
+						}
+					}
+				}
+			}
+			onStack[f] = false
+			height[f] = m + 1
+			return m + 1
+		}
+		for f := range inlinableSet {
+			if h(f) > maxInlineDepth {
+				delete(inlinableSet, f)
+				changed = true
+				break
+			}
+		}
+	}
 }
 
 // isCalleeOperand: op is the Value slot of the call (not one of its arguments).
@@ -117,7 +229,7 @@ func isCalleeOperand(in ssa.Instruction, op *ssa.Value) bool {
 
 // InlinedHelpers lists the helpers that are interpreted inline (for evidence).
 func InlinedHelpers() []string {
-	var out []string
+	out := []string{}
 	for f := range inlinableSet {
 		out = append(out, f.String())
 	}
@@ -256,6 +368,12 @@ func (s *PathState) clone() *PathState {
 	c.Atoms = append([]Atom(nil), s.Atoms...)
 	c.Events = append([]Event(nil), s.Events...)
 	c.defers = append([]Event(nil), s.defers...)
+	if s.visits != nil {
+		c.visits = make(map[*ssa.BasicBlock]int, len(s.visits))
+		for k, v := range s.visits {
+			c.visits[k] = v
+		}
+	}
 	if s.Resolved != nil {
 		c.Resolved = make(map[string]*Term, len(s.Resolved))
 		for k, v := range s.Resolved {
@@ -315,7 +433,7 @@ func (s *PathState) applyTemplate(call *ssa.Call, g *ssa.Function, t *PathState,
 
 func (s *PathState) applyTemplateMode(call *ssa.Call, g *ssa.Function, t *PathState, partial, pure bool) (ok bool, panicked bool) {
 	args := s.callEvent("call", call).Args
-	tag := "⟦" + shortCallee(g.String()) + "@" + instrID(call) + "⟧"
+	tag := "⟦" + shortCallee(g.String()) + "@" + s.iid(call) + "⟧"
 	pm := map[string]*Term{}
 	for i, prm := range g.Params {
 		if i < len(args) {
@@ -341,6 +459,31 @@ func (s *PathState) applyTemplateMode(call *ssa.Call, g *ssa.Function, t *PathSt
 			}
 		case "const", "global", "fn":
 			r = x
+		case "freevar":
+			r = x
+			if mc := closureMC[g]; mc != nil {
+				for i, fv := range g.FreeVars {
+					if fv.Name() == x.Aux && i < len(mc.Bindings) {
+						r = s.T(mc.Bindings[i])
+					}
+				}
+			}
+		case "field":
+			a := tr(x.Args[0])
+			if a.Op == "load" && len(a.Args) == 1 && a.Args[0] != nil && !strings.Contains(a.K, ")#") {
+				// a field of a struct value that was loaded as a whole for the call: the field's own cell
+				fk := "&" + a.Args[0].K + "." + x.Aux
+				if v, ok := s.mem[fk]; ok && v != nil {
+					r = v
+					break
+				}
+				if rt := a.Args[0].Root(); rt != nil && rt.Op == "alloc" && s.memver[rt.K] == 0 {
+					fa := &Term{K: fk, Op: "fieldaddr", Aux: x.Aux, Args: []*Term{a.Args[0]}, V: x.V}
+					r = &Term{K: "load(" + fk + ")", Op: "load", Args: []*Term{fa}, V: x.V}
+					break
+				}
+			}
+			r = rebuildTag(x, []*Term{a}, tag)
 		case "load":
 			a := tr(x.Args[0])
 			suffix := ""
@@ -477,7 +620,7 @@ func (s *PathState) applyTemplateMode(call *ssa.Call, g *ssa.Function, t *PathSt
 			s.env[call] = &Term{K: "tuple(" + strings.Join(ks, ", ") + ")", Op: "tuple", Args: rets, V: call}
 		}
 	}
-	s.Inlines = append(s.Inlines, fmt.Sprintf("%s@%s", shortCallee(g.String()), instrID(call)))
+	s.Inlines = append(s.Inlines, fmt.Sprintf("%s@%s", shortCallee(g.String()), s.iid(call)))
 	return true, panicked
 }
 
@@ -588,7 +731,7 @@ func pureCallee(in ssa.Instruction) *ssa.Function {
 
 // PureSplit lists the functions whose branches split their callers' paths.
 func PureSplit() []string {
-	var out []string
+	out := []string{}
 	for f, v := range pureMemo {
 		if v == 1 {
 			out = append(out, f.String())
